@@ -191,8 +191,8 @@ func prepareChar(c *Ctx, cfg CharCfg, rec spg.CharRecipe, seed uint64) (p charPr
 func init() {
 	register(&CheckDef{
 		ID: "C02", Level: "exploration",
-		Technique: "deterministic simulation: complete choice-tree sweeps of seeded small recipes on the scripted random tape (hook-visible draw bounds), including levels reached after forced rejected candidates; exact law vs model string set",
-		Rule:      "case = one leaf (complete choice path of one Generate call) of a swept configuration; evaluations = leaves executed; distinct_nontrivial = distinct (configuration, level) sweeps completed whose string set has at least 2 members",
+		Technique:   "deterministic simulation: complete choice-tree sweeps of seeded small recipes on the scripted random tape (hook-visible draw bounds), including levels reached after forced rejected candidates; exact law vs model string set",
+		Rule:        "case = one leaf (complete choice path of one Generate call) of a swept configuration; evaluations = leaves executed; distinct_nontrivial = distinct (configuration, level) sweeps completed whose string set has at least 2 members",
 		Assumptions: []string{"leaves of a sweep are weighted by prod 1/n_i, i.e. each bounded draw is uniform (C01, checked separately)", "sweeps are exhaustive per small configuration (|alphabet|^length within the leaf budget); configurations, orders and rejected prefixes are a seeded sample"},
 		Episodes:    map[string]int{"quick": 1200, "thorough": 16000},
 		TwiceEvery:  6,
